@@ -444,11 +444,25 @@ fn decode_mutations<E>(
     outputs: Outputs,
     mut set: SolutionSet,
 ) -> Result<SolutionSet, PredicatesError<E>> {
+    // The value proposed so far for each slot by any solution of the set. Computed mutations
+    // have to agree with it, otherwise the post state would depend on the solutions' order.
+    let mut proposed: HashMap<(ContentAddress, Key), Value> = set
+        .solutions
+        .iter()
+        .flat_map(|s| {
+            let contract = &s.predicate_to_solve.contract;
+            s.state_mutations
+                .iter()
+                .map(move |m| ((contract.clone(), m.key.clone()), m.value.clone()))
+        })
+        .collect();
+
     // For each output check if there are any state mutations and apply them.
     for output in outputs.data {
         // No two outputs can point to the same solution index.
         // Get the solution that these outputs came from.
         let s = &mut set.solutions[output.solution_index as usize];
+        let contract = s.predicate_to_solve.contract.clone();
 
         // Set to check for duplicate mutations, including the ones the solution already has.
         let mut mut_set: HashSet<Key> = s.state_mutations.iter().map(|m| m.key.clone()).collect();
@@ -465,8 +479,13 @@ fn decode_mutations<E>(
                             )]))
                         })?
                     {
-                        // Check for duplicate mutation keys.
-                        if !mut_set.insert(mutation.key.clone()) {
+                        // Check for duplicate mutation keys and for a different value
+                        // proposed for the same slot by another solution.
+                        let agrees = *proposed
+                            .entry((contract.clone(), mutation.key.clone()))
+                            .or_insert_with(|| mutation.value.clone())
+                            == mutation.value;
+                        if !mut_set.insert(mutation.key.clone()) || !agrees {
                             return Err(PredicatesError::Failed(PredicateErrors(vec![(
                                 output.solution_index,
                                 PredicateError::Mutations(MutationsError::DuplicateMutations(
